@@ -274,7 +274,60 @@ func shapeLongNames(r *rng.R, plain bool) c10Shape {
 	return c10Shape{fmt.Sprintf("struct name of %d characters, containers up to %d levels", len(long), deepest), "shape: helper names hundreds of characters long", files, []string{"root.thrift"}}
 }
 
-var c10ShapeGens = []func(*rng.R, bool) c10Shape{shapeConstChains, shapeServiceChain, shapeSameBaseName, shapeImportNames, shapeUmbrella, shapeLongNames}
+// shapeTypedefLoop: a chain of 2–5 typedefs that closes through a struct (`typedef Beta Alpha … typedef
+// Node Omega; struct Node {1: optional Alpha next}`): which typedef is linked first depends on map
+// iteration, and every one of them must come out with its root whatever the order (finding D10,
+// repaired) — compile and generation succeed every time, with the same bytes.
+func shapeTypedefLoop(r *rng.R, plain bool) c10Shape {
+	n := 2 + r.Intn(4)
+	names := []string{"Alpha", "Beta", "Gamma", "Delta", "Omega"}[:n]
+	var lines []string
+	for i := 0; i+1 < n; i++ {
+		lines = append(lines, fmt.Sprintf("typedef %s %s", names[i+1], names[i]))
+	}
+	lines = append(lines, fmt.Sprintf("typedef Node %s", names[n-1]))
+	user := names[r.Intn(n)]
+	if r.Bool() {
+		lines = append(lines, fmt.Sprintf("struct Node {\n  1: optional %s nxt\n}", names[0]))
+	} else {
+		lines = append(lines, fmt.Sprintf("struct Node {\n  1: optional %s nxt\n  2: optional list<%s> more\n  3: optional string label\n}", names[0], user))
+	}
+	if !plain && r.Bool() {
+		lines = append(lines, fmt.Sprintf("struct Holder {\n  1: optional map<string, %s> byName\n}", names[r.Intn(n)]))
+		lines = append(lines, fmt.Sprintf("service Walk {\n  %s step(1: %s origin)\n}", names[r.Intn(n)], names[r.Intn(n)]))
+	}
+	files := map[string]string{"root.thrift": strings.Join(shuffled(r, lines), "\n\n") + "\n"}
+	return c10Shape{fmt.Sprintf("%d typedefs", n), "shape: typedef chain that closes through a struct", files, []string{"root.thrift"}}
+}
+
+// shapeZeroPadded: names that are equal up to the zero padding of a number (Rev1 / Rev01 / Rev001) among
+// types, constants, enum items, services and functions: an ordering that reads digits as numbers has no
+// opinion about them, and what it leaves undecided must not be decided by map iteration.
+func shapeZeroPadded(r *rng.R, plain bool) c10Shape {
+	pads := shuffled(r, []string{"1", "01", "001", "0001"})[:2+r.Intn(3)]
+	var lines []string
+	for _, p := range pads {
+		lines = append(lines, fmt.Sprintf("struct Rev%s {\n  1: optional string v%s\n  2: optional i32 n%s\n}", p, p, p))
+		lines = append(lines, fmt.Sprintf("const i32 LIMIT_%s = %d", p, len(p)))
+		lines = append(lines, fmt.Sprintf("typedef list<Rev%s> Revs%s", p, p))
+	}
+	var items, funcs []string
+	for i, p := range pads {
+		items = append(items, fmt.Sprintf("  STEP%s = %d", p, i+1))
+		funcs = append(funcs, fmt.Sprintf("  Rev%s get%s(1: Revs%s all%s)", p, p, p, p))
+	}
+	lines = append(lines, "enum Step {\n"+strings.Join(items, ",\n")+"\n}")
+	lines = append(lines, "service Store {\n"+strings.Join(shuffled(r, funcs), "\n")+"\n}")
+	if !plain {
+		for _, p := range pads {
+			lines = append(lines, fmt.Sprintf("service Svc%s {\n  void ping%s()\n}", p, p))
+		}
+	}
+	files := map[string]string{"root.thrift": strings.Join(shuffled(r, lines), "\n\n") + "\n"}
+	return c10Shape{fmt.Sprintf("%d spellings of one number", len(pads)), "shape: names equal up to zero padding", files, []string{"root.thrift"}}
+}
+
+var c10ShapeGens = []func(*rng.R, bool) c10Shape{shapeConstChains, shapeServiceChain, shapeSameBaseName, shapeImportNames, shapeUmbrella, shapeLongNames, shapeTypedefLoop, shapeZeroPadded}
 
 // c10ShapeSizes: order dependences of the generator act on Go's natural map
 // order only (the link-order hook steers the compiler, not the generator), and
@@ -294,6 +347,9 @@ func (c *checker) runC10Shapes(helper string) {
 				c.rep.Hist("shape-detail", sh.detail)
 			}
 			c.rep.Hist("runs-per-program", fmt.Sprint(len(runs)))
+			if !runs[0].ok && strings.Contains(runs[0].errText, "could not parse file") {
+				fatal("shape program %q does not parse (a mistake of the harness): %s", sh.note, summarize(strings.TrimSpace(runs[0].errText), 400))
+			}
 			if !runs[0].ok && len(c.rep.Samples) < 12 {
 				c.rep.Sample(sh.note + " rejected: " + summarize(strings.TrimSpace(runs[0].errText), 300))
 			}
